@@ -114,9 +114,10 @@ def decode_request(configuration: "config.Configuration",
 
     # First append content charset given in the request
     content_type = environ.get("CONTENT_TYPE")
-    if content_type and "charset=" in content_type:
+    if content_type and "charset=" in content_type.lower():
+        # parameter names are case-insensitive (RFC 9110, 5.6.6)
         charsets.append(
-            content_type.split("charset=")[1].split(";")[0].strip())
+            content_type.lower().split("charset=")[1].split(";")[0].strip())
     # Then append default Radicale charset
     charsets.append(cast(str, configuration.get("encoding", "request")))
     # Then append various fallbacks
